@@ -166,6 +166,10 @@ def fuzz_stage(c, cfg):
             agg.counts["envelope_exits_by_abort"] = agg.counts.get("envelope_exits_by_abort", 0) + 1
         else:
             agg.inconclusive.append("fuzz artifact %s: %s" % (os.path.basename(f), kind))
+    hp = agg.counts.get("harness_panics_in_fuzz_mode", 0)
+    if hp:
+        stats["harness_panics"] = hp
+        agg.inconclusive.append("%d executions ended in a panic of the harness itself (outside its monitors) in the fuzz build: a harness defect, not a verdict" % hp)
     stats["artifacts"] = replayed
     stats["what"] = ("libFuzzer (coverage + value profile) mutating the decision tape of this property's generators; each execution runs one case of every "
                      "random part of the check above under the same monitors; cov/ft = edges/features of pushr+harness reached")
